@@ -60,6 +60,12 @@ type Case struct {
 	Release  string `json:"release,omitempty"` // burst | chain | 100us | 1ms | 3ms | jitter
 	// both
 	Disconnect int `json:"disconnect_after,omitempty"` // <0: read to the end; else close after that many raw bytes
+	// SlowW: the ResponseWriter hands every Write to the connection in two pieces with a yield in
+	// between (a writer may make partial progress); two unsynchronised writers then interleave on the wire
+	SlowW bool `json:"two_piece_writer,omitempty"`
+	// CtxEnd: the server ends the request context (deadline middleware / shutdown) after that many
+	// payloads were handed to the transport, while the client stays connected (0 = never)
+	CtxEnd int `json:"server_ends_context_after,omitempty"`
 }
 
 var keepAlives = []int{0, 1, 50, 1000}
@@ -117,6 +123,17 @@ func genCases(seed int64, n int) []Case {
 				c.K, c.M = 3+r.Intn(6), 3+r.Intn(6)
 			}
 			c.Release = releases[r.Intn(len(releases))]
+			if cls == 17 && (i/20)%2 == 1 {
+				// a multi-event operation (subscription) through the multipart/mixed transport
+				c.Shape = "sub"
+				c.DTms = []int{1, 5, 50}[(i/40)%3]
+				c.N = 2 + r.Intn(7)
+				c.Timing = timings[r.Intn(5)]
+				sz := []int{10, 100, 1000}[r.Intn(3)]
+				for k := 0; k < c.N; k++ {
+					c.Sizes = append(c.Sizes, sz) // equal lengths: a reused buffer shows as wrong content, not as broken JSON
+				}
+			}
 		default: // client disconnects after k bytes
 			if cls == 18 {
 				c.Kind, c.Op = "sse", "sub"
@@ -134,6 +151,13 @@ func genCases(seed int64, n int) []Case {
 				c.Release = releases[r.Intn(len(releases))]
 			}
 			c.Disconnect = []int{0, 1, 17, 120, 200, 400, 1000, 5000, 30000}[r.Intn(9)]
+		}
+		// derived without consuming the case's randomness
+		if c.Disconnect < 0 && i%5 == 2 {
+			c.SlowW = true
+		}
+		if c.Kind == "sse" && c.Op == "sub" && c.Disconnect < 0 && c.N >= 2 && i%7 == 3 {
+			c.CtxEnd = 1 + i%c.N
 		}
 		out = append(out, c)
 	}
@@ -162,6 +186,46 @@ type state struct {
 	ctxDone    atomic.Bool
 	handlerRet chan struct{}
 	recovered  []string
+	cancel     context.CancelFunc
+	overlaps   atomic.Int64 // writes that began while another write to the same response was in progress
+	inWrite    atomic.Int64
+}
+
+// twoPieceWriter passes every Write on in two pieces and yields in between; it also counts writes
+// that overlap in time (a monitor on the ResponseWriter, which net/http documents as not safe for
+// concurrent use).
+type twoPieceWriter struct {
+	http.ResponseWriter
+	st *state
+}
+
+func (t *twoPieceWriter) Write(p []byte) (int, error) {
+	if t.st.inWrite.Add(1) > 1 {
+		t.st.overlaps.Add(1)
+	}
+	defer t.st.inWrite.Add(-1)
+	if len(p) < 2 {
+		return t.ResponseWriter.Write(p)
+	}
+	h := len(p) / 2
+	n, err := t.ResponseWriter.Write(p[:h])
+	if err != nil {
+		return n, err
+	}
+	runtime.Gosched()
+	time.Sleep(30 * time.Microsecond)
+	m, err := t.ResponseWriter.Write(p[h:])
+	return n + m, err
+}
+
+func (t *twoPieceWriter) Flush() {
+	if t.st.inWrite.Add(1) > 1 {
+		t.st.overlaps.Add(1)
+	}
+	defer t.st.inWrite.Add(-1)
+	if f, ok := t.ResponseWriter.(http.Flusher); ok {
+		f.Flush()
+	}
 }
 
 func newState(c *Case) *state {
@@ -383,8 +447,12 @@ func serverFor(c *Case) *httptest.Server {
 			}
 			st.mu.Lock()
 			st.produced = append(st.produced, pr)
+			n := len(st.produced)
 			st.cond.Broadcast()
 			st.mu.Unlock()
+			if st.c.CtxEnd > 0 && n == st.c.CtxEnd && st.cancel != nil {
+				st.cancel()
+			}
 		}
 		return resp
 	})
@@ -392,8 +460,18 @@ func serverFor(c *Case) *httptest.Server {
 		v, _ := states.Load(r.Header.Get("X-Case"))
 		st, _ := v.(*state)
 		if st != nil {
-			r = r.WithContext(context.WithValue(r.Context(), ctxKey{}, st))
+			ctx := context.WithValue(r.Context(), ctxKey{}, st)
+			if st.c.CtxEnd > 0 {
+				var cancel context.CancelFunc
+				ctx, cancel = context.WithCancel(ctx)
+				defer cancel()
+				st.cancel = cancel
+			}
+			r = r.WithContext(ctx)
 			defer close(st.handlerRet)
+			if st.c.SlowW {
+				w = &twoPieceWriter{ResponseWriter: w, st: st}
+			}
 		}
 		h.ServeHTTP(w, r)
 	})
@@ -425,6 +503,8 @@ func queryFor(c *Case) (q string, gated []string) {
 		}
 	}
 	switch c.Shape {
+	case "sub":
+		return fmt.Sprintf(`subscription { ctl(id:"c%d") { seq payload } }`, c.Idx), nil
 	case "flat":
 		q = fmt.Sprintf(`{ items(n:%d) { id ... @defer(label:"f") { slow(ms:1) } } }`, c.K)
 		for i := 0; i < c.K; i++ {
@@ -659,10 +739,86 @@ func runCase(c *Case, o *kids.Case) {
 	}
 	o.Count("http_chunks_"+c.Kind, int64(len(hr.Chunks)))
 	o.Count("tcp_reads_"+c.Kind, int64(res.Reads))
+	if c.SlowW {
+		o.Count("two_piece_writer_cases", 1)
+		if n := st.overlaps.Load(); n > 0 {
+			fail(framingSig("splice"), "concurrent-writers", fmt.Sprintf("%d Write/Flush calls on the ResponseWriter began while another one was in progress", n), nil)
+			return
+		}
+	}
+	if c.CtxEnd > 0 {
+		o.Count("server_ended_context_cases", 1)
+	}
 	if c.Kind == "sse" {
 		checkSSE(c, o, st, hr, produced, fail, framingSig)
+	} else if c.Shape == "sub" {
+		checkMPSub(c, o, hr, produced, fail, framingSig)
 	} else {
 		checkMP(c, o, hr, produced, fail, framingSig)
+	}
+}
+
+// checkMPSub: a multi-event operation (subscription) through the multipart/mixed transport. Every
+// event is handed to the aggregator like an incremental payload; what is judged is delivery: each
+// payload exactly once, in order, as valid JSON. The transport writes its closing boundary after
+// the first flush (its payloads carry no hasNext) and keeps writing parts after it: that breaks
+// "closing boundary exactly once, last" on the unchanged tree and is reported under its own
+// signature (known finding).
+func checkMPSub(c *Case, o *kids.Case, hr *httpResp, produced []prodRec, fail func(sig, kind, why string, extra map[string]any), fsig func(string) string) {
+	mt, params, err := mime.ParseMediaType(hr.Headers["content-type"])
+	if hr.Status != 200 || err != nil || mt != "multipart/mixed" {
+		fail(fsig("head"), "head", fmt.Sprintf("status %d content-type %q (%v)", hr.Status, hr.Headers["content-type"], err), nil)
+		return
+	}
+	b := params["boundary"]
+	o.Count("mp_subscription_streams", 1)
+	body := string(hr.Body)
+	closings := strings.Count(body, "\r\n--"+b+"--\r\n")
+	body = strings.TrimPrefix(body, "--"+b+"\r\n")
+	body = strings.ReplaceAll(body, "\r\n--"+b+"--\r\n", "\x00")
+	body = strings.ReplaceAll(body, "\r\n--"+b+"\r\n", "\x00")
+	var items []*sjson.Value
+	for i, part := range strings.Split(body, "\x00") {
+		if part == "" {
+			continue
+		}
+		const hdr = "Content-Type: application/json\r\n\r\n"
+		if !strings.HasPrefix(part, hdr) {
+			fail(fsig("layout"), "layout", fmt.Sprintf("part %d does not start with the JSON content-type header: %q", i, trunc(part, 80)), nil)
+			return
+		}
+		v, err := sjson.Parse([]byte(part[len(hdr):]))
+		if err != nil {
+			fail(fsig("json"), "invalid-json", fmt.Sprintf("part %d is not valid JSON: %v: %q", i, err, trunc(part[len(hdr):], 200)), nil)
+			return
+		}
+		if inc := v.Get("incremental"); inc != nil && inc.Kind == sjson.Array {
+			items = append(items, inc.Arr...)
+		} else {
+			items = append(items, v)
+		}
+	}
+	if len(items) != len(produced) {
+		fail(fsig("count"), "lost-or-duplicated", fmt.Sprintf("%d payloads on the wire, %d handed to the transport", len(items), len(produced)), nil)
+		return
+	}
+	for i, it := range items {
+		want := sjson.N()
+		if len(produced[i].Data) > 0 {
+			if want, err = sjson.Parse(produced[i].Data); err != nil {
+				o.Inconclusive("harness: produced data not parsable: " + err.Error())
+				return
+			}
+		}
+		if got := it.Get("data"); got == nil || !sjson.Equal(want, got, true) {
+			fail(fsig("order"), "order-or-content", fmt.Sprintf("wire payload %d is not the %d-th produced payload: %s", i, i, trunc(sjson.Diff(want, got, true, "data"), 300)), nil)
+			return
+		}
+	}
+	o.Count("mp_subscription_payloads_compared", int64(len(items)))
+	o.Distinct("nontrivial", fmt.Sprintf("mpsub/%d/%d/%s/%d", c.DTms, c.N, c.Timing, c.Sizes[0]))
+	if closings != 1 || !strings.HasSuffix(string(hr.Body), "--"+b+"--\r\n") {
+		fail("multipart-subscription-closing-boundary-not-last", "closing-boundary", fmt.Sprintf("closing boundary appears %d times in the response to a %d-event subscription", closings, len(produced)), nil)
 	}
 }
 
@@ -781,7 +937,9 @@ func checkSSE(c *Case, o *kids.Case, st *state, hr *httpResp, produced []prodRec
 		}
 		o.Count("sse_events_checked", 1)
 	}
-	if c.Op == "sub" && len(nexts) != c.N {
+	if c.Op == "sub" && len(nexts) != c.N && c.CtxEnd == 0 {
+		// (when the server itself ends the request early the stream is shorter by design: what was
+		// handed to the transport must be on the wire, followed by complete -- judged above)
 		fail(fsig("count"), "lost", fmt.Sprintf("resolver produced %d payloads (consumed %d) but only %d reached the transport/wire", c.N, st.consumed.Load(), len(nexts)), nil)
 		return
 	}
